@@ -596,45 +596,57 @@ def zeros_warm_history(res, r, tier, viol_cap):
         canon = {'dom': dom, 'zeros': {za: dead}, 'families': fams, 'total': T, 'oracle': oracle, 'warm_start': warm, 'history': 'zeros+warm'}
         res.case(canon, True)
         res.count('structural zeros on disjoint families, two calls' + (' (warm start)' if warm else ''))
-        eng = LocalInference(d_obj, iters=600, marginal_oracle=oracle, structural_zeros=dict(zeros), warm_start=warm)
-        for k, fam in enumerate(fams):
-            meas = []
-            for cl in fam:
-                n = int(np.prod([sizes[x] for x in cl]))
-                y = prng.dirichlet(np.ones(n)) * T + prng.normal(0, sigma, n)
-                meas.append((np.eye(n), y, sigma, tuple(cl)))
-            try:
-                with np.errstate(all='ignore'):
-                    model = eng.estimate(meas, total=T)
-            except Exception as e:
-                viol_cap('failing-input', f'oracle {oracle!r}, structural zeros on {za}={dead}, call {k + 1} (warm_start={warm}): estimate raises {type(e).__name__}: {str(e)[:100]}',
-                         {'request': canon}, f'local:zeros:raises:{type(e).__name__}')
-                break
-            bad = None
-            for Q, y, sg, cl in meas:
-                x = np.asarray(model.project(cl).datavector(), dtype=float)
-                shape = [sizes[t] for t in cl]
-                mask = np.ones(shape, dtype=bool)
-                if za in cl:
-                    idx = [slice(None)] * len(cl)
-                    for v in dead:
-                        idx[list(cl).index(za)] = v
-                        mask[tuple(idx)] = False
-                mask = mask.flatten()
-                ref = np.zeros(mask.size)
-                ref[mask] = simplex_projection(y[mask], T)
-                if not np.all(np.isfinite(x)) or x.min() < -1e-9 * T or abs(x.sum() - T) > 1e-6 * T:
-                    bad = f'table {list(cl)} is not a valid table (sum {x.sum()!r}, min {x.min()!r})'
-                elif x[~mask].sum() > 1e-6 * T:
-                    bad = f'table {list(cl)} puts mass {x[~mask].sum():.6g} on structurally impossible cells'
-                elif np.abs(x - ref).max() > 1e-3 * T:
-                    bad = f'table {list(cl)} differs from the exact optimum on the allowed cells by {np.abs(x - ref).max():.4g} records (600 iterations)'
-                if bad:
-                    break
-            if bad:
-                viol_cap('failing-input', f'oracle {oracle!r}, structural zeros on {za}={dead}, call {k + 1} of 2 on one estimator (warm_start={warm}), disjoint cliques {fam}, total {T}: {bad}',
-                         {'request': canon}, 'local:zeros:' + bad.split()[0] + ':' + bad.split()[2][:6])
-                break
+        budget = 600
+        seed_meas = prng.randint(2**31)
+        while True:
+          prng = np.random.RandomState(seed_meas)
+          retry = False
+          eng = LocalInference(d_obj, iters=budget, marginal_oracle=oracle, structural_zeros=dict(zeros), warm_start=warm)
+          for k, fam in enumerate(fams):
+              meas = []
+              for cl in fam:
+                  n = int(np.prod([sizes[x] for x in cl]))
+                  y = prng.dirichlet(np.ones(n)) * T + prng.normal(0, sigma, n)
+                  meas.append((np.eye(n), y, sigma, tuple(cl)))
+              try:
+                  with np.errstate(all='ignore'):
+                      model = eng.estimate(meas, total=T)
+              except Exception as e:
+                  viol_cap('failing-input', f'oracle {oracle!r}, structural zeros on {za}={dead}, call {k + 1} (warm_start={warm}): estimate raises {type(e).__name__}: {str(e)[:100]}',
+                           {'request': canon}, f'local:zeros:raises:{type(e).__name__}')
+                  break
+              bad = None
+              for Q, y, sg, cl in meas:
+                  x = np.asarray(model.project(cl).datavector(), dtype=float)
+                  shape = [sizes[t] for t in cl]
+                  mask = np.ones(shape, dtype=bool)
+                  if za in cl:
+                      idx = [slice(None)] * len(cl)
+                      for v in dead:
+                          idx[list(cl).index(za)] = v
+                          mask[tuple(idx)] = False
+                  mask = mask.flatten()
+                  ref = np.zeros(mask.size)
+                  ref[mask] = simplex_projection(y[mask], T)
+                  if not np.all(np.isfinite(x)) or x.min() < -1e-9 * T or abs(x.sum() - T) > 1e-6 * T:
+                      bad = f'table {list(cl)} is not a valid table (sum {x.sum()!r}, min {x.min()!r})'
+                  elif x[~mask].sum() > 1e-6 * T:
+                      bad = f'table {list(cl)} puts mass {x[~mask].sum():.6g} on structurally impossible cells'
+                  elif np.abs(x - ref).max() > 1e-3 * T:
+                      bad = f'table {list(cl)} differs from the exact optimum on the allowed cells by {np.abs(x - ref).max():.4g} records ({budget} iterations)'
+                  if bad:
+                      break
+              if bad and 'differs from the exact optimum' in bad and budget < 3000:
+                  retry = True      # a convergence statement: the budget is escalated once before a failure is reported
+                  break
+              if bad:
+                  viol_cap('failing-input', f'oracle {oracle!r}, structural zeros on {za}={dead}, call {k + 1} of 2 on one estimator (warm_start={warm}), disjoint cliques {fam}, total {T}: {bad}',
+                           {'request': canon}, 'local:zeros:' + bad.split()[0] + ':' + bad.split()[2][:6])
+                  break
+          if not retry:
+              break
+          budget = 3000
+          res.count('zeros+warm history: budget escalated to 3000')
 
 
 def stationary_start(res, r, viol_cap):
